@@ -368,6 +368,60 @@ METRIC_SOURCE = {  # cost metric class -> the circuit attribute its definition n
 EMITTER_WIRE_METRICS = ("CircuitMaxEmitDepth", "CircuitMaxEmitResetDepth", "CircuitMaxEmitEffDepth")
 
 
+RESET_POINTS = {"Input", "MeasurementCNOTandReset", "Output"}
+
+
+def rule_reset_points(ctx: Ctx) -> None:
+    """metric.reset-points: the reset-depth and effective-depth metrics cut an emitter's history at its Input node, at every
+    MeasurementCNOTandReset and at its Output node — exactly these three kinds.  Whether written as a list of class names or as an
+    isinstance test, the set of operation classes it accepts (subclasses included) must be exactly that: a base class such as
+    ClassicalControlledPairOperationBase also admits ClassicalCNOT / ClassicalCZ, which measure without resetting."""
+    repo = ctx.repo
+    m = repo.module(METRICS)
+    om = repo.module("graphiq/circuit/ops.py")
+    fns = []
+    for cname in ("CircuitMaxEmitResetDepth", "CircuitMaxEmitEffDepth"):
+        ev = repo.cls(cname, METRICS).methods().get("evaluate")
+        if ev is not None:
+            fns.append((cname + ".evaluate", ev))
+            for hc in [x for x in ast.walk(ev) if isinstance(x, ast.Call) and isinstance(x.func, ast.Name)]:
+                hf = repo.try_anchor(METRICS, hc.func.id)
+                if isinstance(hf, ast.FunctionDef) and all(hf is not f for _, f in fns):
+                    fns.append((hf.name, hf))
+    n = 0
+    for q, fn in fns:
+        for t in [x for x in ast.walk(fn) if isinstance(x, (ast.Compare, ast.Call))]:
+            accepted = None
+            if isinstance(t, ast.Compare) and len(t.ops) == 1 and isinstance(t.ops[0], ast.In) and "__name__" in norm(t.left) \
+                    and isinstance(t.comparators[0], (ast.List, ast.Tuple, ast.Set)):
+                accepted = {e.value for e in t.comparators[0].elts if isinstance(e, ast.Constant)}
+            elif isinstance(t, ast.Call) and call_name(t) == "isinstance" and len(t.args) == 2:
+                cls_e = t.args[1].elts if isinstance(t.args[1], (ast.Tuple, ast.List)) else [t.args[1]]
+                names = [(dotted(e) or "").split(".")[-1] for e in cls_e]
+                cis = [repo.resolve_class(om, nme) for nme in names]
+                if all(c is not None for c in cis) and any(nme in ("InputOutputOperationBase", "Input", "Output", "MeasurementCNOTandReset", "ClassicalControlledPairOperationBase") for nme in names):
+                    accepted = set()
+                    for c in cis:
+                        for sub in repo.subclasses(c):
+                            if not sub.name.endswith("Base"):
+                                accepted.add(sub.name)
+            if accepted is None:
+                continue
+            n += 1
+            ctx.touch(m, fn)
+            if accepted == RESET_POINTS:
+                ctx.ok("metric.reset-points", m, t, what=f"{q}: cuts at Input / MeasurementCNOTandReset / Output")
+            else:
+                extra, missing = sorted(accepted - RESET_POINTS), sorted(RESET_POINTS - accepted)
+                ctx.fail("metric.reset-points", m, t,
+                         f"{q} cuts the emitter history at {sorted(accepted)}"
+                         + (f": {extra} do not reset the emitter, so the longest interval is split and the metric comes out too small" if extra else "")
+                         + (f"; {missing} not recognised as a cut" if missing else ""), func=q,
+                         construct=f"{q}: reset points {sorted(accepted)}")
+    if n < 2:
+        raise AnalysisError("metric.reset-points: the classification of reset points was not found in the two metrics")
+
+
 def rule_metric_source(ctx: Ctx) -> None:
     repo = ctx.repo
     m = repo.module(METRICS)
@@ -405,12 +459,13 @@ def rule_metric_source(ctx: Ctx) -> None:
         contrib = {}
         for n in ast.walk(ev):
             if isinstance(n, ast.Assign):
-                for t in n.targets:
-                    b = t
-                    while isinstance(b, ast.Subscript):
-                        b = b.value
-                    if isinstance(b, ast.Name):
-                        contrib.setdefault(b.id, []).append(n.value)
+                for t0 in n.targets:
+                    for t in (t0.elts if isinstance(t0, (ast.Tuple, ast.List)) else [t0]):
+                        b = t
+                        while isinstance(b, (ast.Subscript, ast.Starred)):
+                            b = b.value
+                        if isinstance(b, ast.Name):
+                            contrib.setdefault(b.id, []).append(n.value)
             if isinstance(n, ast.Call) and call_attr(n) in ("append", "extend") and isinstance(n.func.value, ast.Name) and n.args:
                 contrib.setdefault(n.func.value.id, []).append(n.args[0])
             if isinstance(n, ast.For):
@@ -426,6 +481,17 @@ def rule_metric_source(ctx: Ctx) -> None:
                     seen.add(x.id)
                     todo.extend(contrib.get(x.id, []))
         hist = [c for e in exprs for c in ast.walk(e) if isinstance(c, ast.Call) and call_attr(c) == "reg_gate_history"]
+        # a module-level helper that receives the circuit and the emitter and reads the history there: helper(c, e_i)
+        helper_hist = []
+        for e in exprs:
+            for hc in [x for x in ast.walk(e) if isinstance(x, ast.Call) and isinstance(x.func, ast.Name)]:
+                hf = repo.try_anchor(METRICS, hc.func.id)
+                if isinstance(hf, ast.FunctionDef):
+                    hps = func_params(hf)
+                    for ic in [x for x in ast.walk(hf) if isinstance(x, ast.Call) and call_attr(x) == "reg_gate_history"]:
+                        reg_ = get_kw(ic, "reg") or (ic.args[0] if ic.args else None)
+                        if isinstance(reg_, ast.Name) and reg_.id in hps and hps.index(reg_.id) < len(hc.args):
+                            helper_hist.append((ic, hc.args[hps.index(reg_.id)], get_kw(ic, "reg_type")))
         other = sorted({call_attr(c) for e in exprs for c in ast.walk(e) if isinstance(c, ast.Call) and call_attr(c) in
                         ("calculate_reg_depth", "calculate_all_reg_depth", "sequence", "depth")})
         per_emitter = False
@@ -435,6 +501,11 @@ def rule_metric_source(ctx: Ctx) -> None:
             if isinstance(reg, ast.Name) and any(isinstance(it, ast.Call) and call_name(it) == "range" and it.args and norm(it.args[-1]).endswith(".n_emitters")
                                                  for it in contrib.get(reg.id, [])) and (rt is None or (isinstance(rt, ast.Constant) and rt.value == "e")):
                 per_emitter = True
+        for ic, actual, rt in helper_hist:
+            if isinstance(actual, ast.Name) and any(isinstance(it, ast.Call) and call_name(it) == "range" and it.args and norm(it.args[-1]).endswith(".n_emitters")
+                                                   for it in contrib.get(actual.id, [])) and (rt is None or (isinstance(rt, ast.Constant) and rt.value == "e")):
+                per_emitter = True
+                hist = hist or [ic]
         has_max = any(isinstance(c, ast.Call) and call_name(c) in ("max", "np.max") for e in exprs for c in ast.walk(e))
         prep = [call_attr(c) for c in calls_in(ev) if call_attr(c) in ("unwrap_nodes", "remove_identity")]
         if hist and per_emitter and has_max and not other:
